@@ -138,11 +138,16 @@ def scenario(seed):
                     snap2[os.path.join(dp, f)] = open(os.path.join(dp, f), "rb").read()
             if snap != snap2:
                 return f"init_project on the existing project {pr} changed files", ("init_project",)
-        for bad in (os.path.join(d, "does", "not", "exist"),):
-            for fn in (signac.get_project, signac.get_job):
+        # paths that do not exist -- directly below the root, below every kind of directory of the tree, and two levels down: LookupError, never a guess
+        missing = [os.path.join(d, "does", "not", "exist")]
+        for path in sorted(kinds)[:12]:
+            if os.path.realpath(path) == path:
+                missing += [os.path.join(path, "missing_entry"), os.path.join(path, "missing_entry", "deeper")]
+        for bad in missing:
+            for fn, kw in ((signac.get_project, {}), (signac.get_project, {"search": False}), (signac.get_job, {})):
                 try:
-                    fn(bad)
-                    return f"{fn.__name__} on a non-existent path did not raise LookupError", ("nonexistent",)
+                    r = fn(bad, **kw)
+                    return f"{fn.__name__}({bad!r}{', search=False' if kw else ''}) on a path that does not exist returned {r} instead of raising LookupError", ("nonexistent", fn.__name__)
                 except LookupError:
                     pass
         return None, (len(projects), len(kinds))
